@@ -59,7 +59,7 @@ typedef struct {
   int envmask;			/* bit0 XDG_RUNTIME_DIR, bit1 HOME, bit2 TMPDIR set */
   int orc_code;			/* 0 unset 1 emulate 2 backup 3 debug 4 backup,emulate */
   int backup;			/* backup function registered */
-  int codeonly;			/* 0 executor bound to the program after the compile, 1 code-only executor, 2 executor bound before the compile */
+  int codeonly;			/* 0 executor bound to the program after the compile, 1 code-only executor, 2 executor bound before the compile, 3 as 0 on the second compile after take_code + reset */
   int prog;			/* 0 addw 1 no rule on target (float on mmx) 2 register exhaustion 3 fatal */
 } Cfg;
 static const char *orc_codes[] = { NULL, "emulate", "backup", "debug", "backup,emulate" };
@@ -221,6 +221,18 @@ static int one_use (const Cfg * c, char *msg, size_t cap, int *native)
     return 0;
   }
   if (ORC_COMPILE_RESULT_IS_FATAL (r)) { snprintf (msg, cap, "valid program %s got fatal result 0x%x (no fallback possible)", prognames[c->prog], r); orc_program_free (p); return 1; }
+  if (c->codeonly == 3) {
+    /* the program's second life: the code of the first compile is taken and released, the program reset and
+     * compiled again the same way; what is run and judged below is the second compile */
+    OrcCode *first = orc_program_take_code (p);
+    if (!first) { snprintf (msg, cap, "take_code returned NULL after a non-fatal compile (result 0x%x)", r); orc_program_free (p); return 1; }
+    orc_code_free (first);
+    orc_program_reset (p);
+    if (c->prog == 1) r = orc_program_compile_for_target (p, orc_target_get_by_name ("mmx"));
+    else if (c->prog == 5) r = orc_program_compile_for_target (p, orc_target_get_by_name ("sse"));
+    else r = orc_program_compile (p);
+    if (ORC_COMPILE_RESULT_IS_FATAL (r)) { snprintf (msg, cap, "valid program %s: the compile after take_code + reset got fatal result 0x%x", prognames[c->prog], r); orc_program_free (p); return 1; }
+  }
   *native = p->code_exec && p->code_exec != (void *) orc_executor_emulate && p->code_exec != (void *) backup_fn;
   for (i = 0; i < 64; i++) { s1[i] = (unsigned char) (i * 7 + 1); s2[i] = (unsigned char) (i * 3 + 2); d[i] = 0x5a; e[i] = 0x5a; }
   if (c->prog == 1) { float v1[8] = { 1.5f, 2.25f, -3.0f, 100.0f, 0.5f, 8.0f, -0.25f, 9.0f }, v2[8] = { 2.5f, 1.0f, 3.0f, 0.125f, 0.5f, -8.0f, 0.25f, 1.0f }; memcpy (s1, v1, 32); memcpy (s2, v2, 32); }
@@ -239,7 +251,7 @@ static int one_use (const Cfg * c, char *msg, size_t cap, int *native)
     for (k = 0; k < 8; k++) exr.arrays[ORC_VAR_S1 + k] = S[k];
     orc_executor_emulate (&exr);
     if (c->codeonly == 1) { code = orc_program_take_code (p); orc_program_free (p); p = NULL; ex->arrays[ORC_VAR_A2] = code; }
-    else if (c->codeonly == 0) orc_executor_set_program (ex, p);
+    else if (c->codeonly == 0 || c->codeonly == 3) orc_executor_set_program (ex, p);
     ex->n = n;
     for (k = 0; k < 4; k++) ex->arrays[ORC_VAR_D1 + k] = D[k];
     for (k = 0; k < 8; k++) ex->arrays[ORC_VAR_S1 + k] = S[k];
@@ -259,7 +271,7 @@ static int one_use (const Cfg * c, char *msg, size_t cap, int *native)
     orc_program_free (p);
     p = NULL;
     ex->arrays[ORC_VAR_A2] = code;
-  } else if (c->codeonly == 0) {
+  } else if (c->codeonly == 0 || c->codeonly == 3) {
     orc_executor_set_program (ex, p);
   }
   ex->n = n;
@@ -325,7 +337,7 @@ static const char *cfg_str (const Cfg * c)
 {
   static char b[200];
   snprintf (b, sizeof (b), "env=%c%c%c ORC_CODE=%s backup=%d executor=%s program=%s", c->envmask & 1 ? 'X' : '-', c->envmask & 2 ? 'H' : '-', c->envmask & 4 ? 'T' : '-',
-      orc_codes[c->orc_code] ? orc_codes[c->orc_code] : "unset", c->backup, c->codeonly == 1 ? "code-only" : c->codeonly == 2 ? "attached-before-compile" : "attached", prognames[c->prog]);
+      orc_codes[c->orc_code] ? orc_codes[c->orc_code] : "unset", c->backup, c->codeonly == 1 ? "code-only" : c->codeonly == 2 ? "attached-before-compile" : c->codeonly == 3 ? "attached/second-compile-after-take+reset" : "attached", prognames[c->prog]);
   return b;
 }
 
@@ -364,7 +376,7 @@ static void report (const Cfg * c, const char *fault, const Report * R)
   int i;
   n_viol++;
   snprintf (key, sizeof (key), "C06|%s|%s|ORC_CODE=%s|backup=%d|%s|%s", R->rc == 3 ? "crash" : R->rc == 2 ? "leak" : "result", fault,
-      orc_codes[c->orc_code] ? orc_codes[c->orc_code] : "unset", c->backup, c->codeonly == 1 ? "code-only" : c->codeonly == 2 ? "attached-before-compile" : "attached", prognames[c->prog]);
+      orc_codes[c->orc_code] ? orc_codes[c->orc_code] : "unset", c->backup, c->codeonly == 1 ? "code-only" : c->codeonly == 2 ? "attached-before-compile" : c->codeonly == 3 ? "attached/second-compile-after-take+reset" : "attached", prognames[c->prog]);
   for (i = 0; i < nseen; i++) if (!strcmp (seen[i], key)) return;
   if (nseen < 300) seen[nseen++] = strdup (key);
   v_out ("{\"t\":\"viol\",\"key\":\"%s\",\"what\":\"%s; fault vector %s; calls %s (upper case = failed: m mkstemp, t ftruncate, x exec mmap, w write mmap, a anonymous mmap); config %s\",\"replay\":{\"config\":\"%s\",\"fault\":\"%s\"}}",
@@ -409,8 +421,8 @@ int main (int argc, char **argv)
     for (i = 0; i < 3; i++) { snprintf (p, sizeof (p), "%s/d%d", scratch, i); mkdir (p, 0700); }
   }
   for (ei = 0; ei < ne; ei++) for (c.orc_code = 0; c.orc_code < 5; c.orc_code++) for (c.backup = 0; c.backup < 2; c.backup++)
-    for (c.codeonly = 0; c.codeonly < 3; c.codeonly++) for (c.prog = 0; c.prog < 8; c.prog++) {
-      if (c.prog == 6 && (!c.backup || c.codeonly == 1)) continue;	/* an uncompiled program runs through its backup function only */
+    for (c.codeonly = 0; c.codeonly < 4; c.codeonly++) for (c.prog = 0; c.prog < 8; c.prog++) {
+      if (c.prog == 6 && (!c.backup || c.codeonly == 1 || c.codeonly == 3)) continue;	/* an uncompiled program runs through its backup function only */
       int fail[8], mask, on;
       c.envmask = thorough ? envt[ei] : envq[ei];
       if ((idx++ % nshards) != shard) continue;
